@@ -225,7 +225,7 @@ def judge(ctx, exe, cases, lines, frs, acc):
         acc["samples"] = [dict(op=c["line"][:100], result=r[:100]) for c, r in list(zip(cases, conf))[:3]]
     for c, r in zip(cases, conf):
         modes[c["mode"]] = modes.get(c["mode"], 0) + 1
-        rep = dict(kind="monitor", op=c["line"][:400000], frame=c["frame"][:300000], result=r)
+        rep = dict(kind="monitor", op=c["line"][:40000000], frame=c["frame"][:300000], result=r)
         if c["mode"] in ("seg", "pre"): rep["harness"] = "zvh_seg"
         if c.get("libdec") and c["libdec"] != c["want"]:
             ctx.violation("the library's decoder does not regenerate the input from the emitted frame: %s, expected %s (mode %s, params %s, %s)" % (
